@@ -43,6 +43,14 @@ def cases(tier, seed):
                         continue
                     base = f"{m}x{n}/r={r}/c={'-'.join(map(str, comp)) or '0'}/{kU}/row={row}"
                     out.append({"key": f"full/{base}", "entry": "classical_qsvd_full", "m": m, "n": n, "vals": vals, "kU": kU, "kV": kV, "row": row, "R": None})
+                    if kU == "hh" and row == 0 and r == p and comp == (1,) * p and p >= 2 and m == n:
+                        # graded spectrum (condition number up to 2^40, gaps >= 2^-41 in absolute terms): small but well-resolved
+                        # singular values must survive.  Square inputs only: for m != n the smallest value would sit next to the
+                        # null space and the singular vectors would be ill-determined.
+                        gv = [1.0, 2.0 ** -8, 2.0 ** -16, 2.0 ** -24, 2.0 ** -32, 2.0 ** -40][:p]
+                        out.append({"key": f"full/{base}/graded", "entry": "classical_qsvd_full", "m": m, "n": n, "vals": gv, "kU": kU, "kV": kV, "row": row, "R": None})
+                        for R in range(1, p + 1):
+                            out.append({"key": f"trunc/{base}/graded/R={R}", "entry": "classical_qsvd", "m": m, "n": n, "vals": gv, "kU": kU, "kV": kV, "row": row, "R": R})
                     if kU == "hh" and row == 0 and r >= 1:
                         for e in (-50, 40):  # whole-matrix scalings ~1e-15, 1e12
                             out.append({"key": f"full/{base}/scale=2^{e}", "entry": "classical_qsvd_full", "m": m, "n": n, "vals": vals, "kU": kU, "kV": kV, "row": row, "R": None, "scale": e})
@@ -93,7 +101,10 @@ def run_case(case, seed):
                 fails.append(fail("singular_values", f"s={s.tolist()} expected {exp.tolist()}", **tags))
             dU = O.unitarity_defect(U)
             dV = O.unitarity_defect(V)
-            tol_u = O.budget(1.0, dims=16 * max(m, n))
+            # singular vectors are determined only up to u * sigma_max / gap: scale the budget when the spectrum is graded
+            dv = sorted(set(vals + ([0.0] if m != n else [])), reverse=True)
+            gap_min = min((a - b for a, b in zip(dv, dv[1:])), default=max(dv[0], 1.0)) if len(dv) > 1 else max(dv[0], 1.0)
+            tol_u = O.budget(1.0, dims=16 * max(m, n)) * max(1.0, 2.0 ** -10 * (dv[0] / gap_min if gap_min > 0 else 1.0))
             if dU > tol_u:
                 fails.append(fail("U_orthonormal", f"||U^H U - I||_F = {dU:.3e}", **tags))
             if dV > tol_u:
